@@ -1,1 +1,175 @@
-//! m5 — reference model (to be written)
+//! M5 — integer / group specifications of the gadgets (DESIGN §3).
+//! Integers are U320 (own code); the JubJub group law is stated through the
+//! affine twisted-Edwards formulas over BlsScalar (own code), cross-checked
+//! against dusk-jubjub where that is convenient.
+
+use crate::fe::*;
+use crate::m1::edwards_d;
+use ff::Field;
+
+/// canonical value of v is below 2^w
+pub fn in_range(v: &Fe, w: usize) -> bool {
+    if w >= 256 {
+        return true;
+    }
+    U320::from_fe(v).lt(&U320::pow2(w))
+}
+
+/// canonical(v) mod 2^n as a field element
+pub fn low_bits(v: &Fe, n: usize) -> Fe {
+    U320::from_fe(v).low(n).to_fe()
+}
+
+pub fn logic(a: &Fe, b: &Fe, bits: usize, xor: bool) -> Fe {
+    let x = U320::from_fe(a).low(bits);
+    let y = U320::from_fe(b).low(bits);
+    if xor {
+        x.xor(&y).to_fe()
+    } else {
+        x.and(&y).to_fe()
+    }
+}
+
+/// little-endian bits of an integer
+pub fn bits_le(v: &U320, n: usize) -> Vec<Fe> {
+    (0..n).map(|i| fe(v.bit(i) as u64)).collect()
+}
+
+/// all integer representatives x + k*r (k = 0,1,2,...) below 2^n
+pub fn representatives(v: &Fe, n: usize) -> Vec<U320> {
+    let mut out = vec![];
+    let r = U320::modulus();
+    let mut cur = U320::from_fe(v);
+    let lim = if n >= 319 { None } else { Some(U320::pow2(n)) };
+    for _ in 0..4 {
+        match &lim {
+            Some(l) if !cur.lt(l) => break,
+            _ => {}
+        }
+        out.push(cur);
+        if cur.bits() >= 318 {
+            break;
+        }
+        cur = cur.add(&r);
+    }
+    out
+}
+
+// ---------------------------------------------------------------- JubJub
+
+#[derive(Clone, Copy, Debug, PartialEq, Eq)]
+pub struct Pt {
+    pub x: Fe,
+    pub y: Fe,
+}
+
+impl Pt {
+    pub fn identity() -> Pt {
+        Pt { x: zero(), y: one() }
+    }
+    pub fn on_curve(&self) -> bool {
+        let x2 = self.x * self.x;
+        let y2 = self.y * self.y;
+        y2 - x2 == one() + edwards_d() * x2 * y2
+    }
+    /// Complete twisted Edwards addition (a = -1). Returns None on a pole
+    /// (only possible for off-curve inputs).
+    pub fn add(&self, o: &Pt) -> Option<Pt> {
+        let d = edwards_d();
+        let x1y2 = self.x * o.y;
+        let y1x2 = self.y * o.x;
+        let y1y2 = self.y * o.y;
+        let x1x2 = self.x * o.x;
+        let t = d * x1x2 * y1y2;
+        let dx = one() + t;
+        let dy = one() - t;
+        if dx == zero() || dy == zero() {
+            return None;
+        }
+        Some(Pt { x: (x1y2 + y1x2) * inv(dx), y: (y1y2 + x1x2) * inv(dy) })
+    }
+    pub fn neg(&self) -> Pt {
+        Pt { x: -self.x, y: self.y }
+    }
+    pub fn double(&self) -> Option<Pt> {
+        self.add(self)
+    }
+    /// Double-and-add with a 256-bit little-endian integer scalar.
+    pub fn mul(&self, k: &U320) -> Option<Pt> {
+        let mut acc = Pt::identity();
+        for i in (0..k.bits()).rev() {
+            acc = acc.double()?;
+            if k.bit(i) == 1 {
+                acc = acc.add(self)?;
+            }
+        }
+        Some(acc)
+    }
+    /// on the curve and annihilated by the subgroup order
+    pub fn in_subgroup(&self) -> bool {
+        if !self.on_curve() {
+            return false;
+        }
+        match self.mul(&U320::from_fe(&r_jubjub())) {
+            Some(p) => p == Pt::identity(),
+            None => false,
+        }
+    }
+    pub fn from_jubjub(p: dusk_jubjub::JubJubExtended) -> Pt {
+        let a = dusk_jubjub::JubJubAffine::from(p);
+        Pt { x: a.get_u(), y: a.get_v() }
+    }
+    pub fn to_affine(&self) -> dusk_jubjub::JubJubAffine {
+        dusk_jubjub::JubJubAffine::from_raw_unchecked(self.x, self.y)
+    }
+}
+
+/// A generator of the 8-torsion subgroup E[8] found by clearing the prime
+/// part of a curve point: T = [r_J] P for an on-curve P of full order.
+pub fn torsion_points() -> Vec<Pt> {
+    // search x = 1,2,... for an on-curve point: y^2 = (1 + x^2) / (1 - d x^2)
+    let d = edwards_d();
+    let rj = U320::from_fe(&r_jubjub());
+    let mut x = one();
+    loop {
+        x += one();
+        let x2 = x * x;
+        let den = one() - d * x2;
+        if den == zero() {
+            continue;
+        }
+        let y2 = (one() + x2) * inv(den);
+        let y: Option<Fe> = y2.sqrt().into();
+        let Some(y) = y else { continue };
+        let p = Pt { x, y };
+        debug_assert!(p.on_curve());
+        let t = p.mul(&rj).expect("on-curve multiplication has no poles");
+        // order of t divides 8; want exact order 8
+        let t4 = t.double().unwrap().double().unwrap();
+        if t4 != Pt::identity() {
+            // t has order 8
+            let mut out = vec![];
+            let mut cur = Pt::identity();
+            for _ in 0..8 {
+                out.push(cur);
+                cur = cur.add(&t).unwrap();
+            }
+            assert_eq!(cur, Pt::identity());
+            return out;
+        }
+    }
+}
+
+/// 8^{-1} mod r_J as an integer (by Fermat in the scalar field of JubJub,
+/// computed with dusk-jubjub's Fr only for the inversion).
+pub fn eight_inv() -> U320 {
+    let e = dusk_jubjub::JubJubScalar::from(8u64).invert().unwrap();
+    let b = e.to_bytes();
+    let mut l = [0u64; 5];
+    for i in 0..4 {
+        let mut w = [0u8; 8];
+        w.copy_from_slice(&b[i * 8..i * 8 + 8]);
+        l[i] = u64::from_le_bytes(w);
+    }
+    U320(l)
+}
